@@ -50,6 +50,9 @@ CHECKS = {
  "C15": ("differential property-based testing: Pooled vs Mdd<LEL> vs Mdd<FRONTIER> vs independent optimum on models with irrelevant (variable, state) pairs",
          "Depth-free table models with generated irrelevance patterns, set packing (dynamic order), common subsequence with jumps; widths 1..3, cache on/off, sequential and 1-3 real threads; all three diagrams exact and equal to the oracle, termination within the proven poll budget, default-completed solution replays." + EXPL,
          TRUST + "models declare irrelevance with a neutral default decision.", "§7 C15"),
+ "C16": ("sub-process differential property-based testing (Hypothesis) of the 12 shipped example binaries against independent brute-force solvers written from the problem statements",
+         "For each example a Hypothesis strategy generates well-formed instances in the example's file format (sizes small enough for exhaustive enumeration), the dev-profile binary built from /repo's working tree is run as a sub-process for widths {1,2,3,default} x threads {1,2[,4]} and its printed objective / proof status / exit code is compared with the brute-force optimum; crashes and wrong optima are violations, a hang is a watchdog expiry (inconclusive)." + EXPL,
+         "Trusted: the 12 brute-force oracles (cross-validated against the binaries at large widths), instance generators stay inside what each reader/model documents (DESIGN §7 C16); wall-clock watchdog only for hangs (exit 2).", "§7 C16"),
  "C17": ("algebraic-law property-based testing of Solver::gap() on a stub solver: exhaustive grid + random pairs + completed solver runs",
          "Five stated predicates checked on every pair of a grid (infinities, 0, small, huge, powers of two and neighbours, both signs), on random pairs, and after completed runs (optimum zero / negative / infeasible)." + EXPL,
          "Trusted: f32 comparison semantics; pairs ordered lb <= ub.", "§7 C17"),
@@ -63,7 +66,7 @@ CHECKS = {
          "No panic; output parses with an independent DOT parser; ids declared once; edge end-points and cluster members declared or hidden by configuration; terminal iff a best value exists; edges match recorded transitions / relaxed arcs (decision, cost, end-points); node set matches created / non-deleted states." + EXPL,
          TRUST + "node faithfulness decided only for depth-embedding states.", "§7 C20"),
 }
-NOT_YET = {"C16": "check under construction (Hypothesis sub-process differential of the 12 example binaries, DESIGN §7 C16); nothing is claimed for it yet"}
+NOT_YET = {}
 def main():
     props = [json.loads(l) for l in open('/verif/properties.jsonl')]
     checks = []
@@ -72,13 +75,14 @@ def main():
         pid = p['id']
         if pid in CHECKS:
             tech, text, note, ref = CHECKS[pid]
+            engine = "c16" if pid == "C16" else "harness"
             checks.append({
                 "property_id": pid,
                 "quick_cmd": f"./check {pid} --tier quick",
                 "thorough_cmd": f"./check {pid} --tier thorough",
                 "evidence_file": f"/verif/evidence/{pid}.json",
                 "replay_cmd_template": f"./check {pid} --replay {{path}}",
-                "engine": "harness",
+                "engine": engine,
                 "level_claimed": {"category": "exploration", "text": text, "design_ref": "DESIGN.md " + ref},
                 "level_note": note,
                 "technique": tech,
@@ -96,7 +100,9 @@ def main():
             "add_only": True,
         },
         "engines": [
-            {"name": "harness", "path": "/verif/harness", "serves_properties": sorted(CHECKS.keys()),
+            {"name": "c16", "path": "/verif/c16/check_c16.py", "serves_properties": ["C16"],
+             "kind_free_text": "Python / Hypothesis: per-example instance strategies, brute-force oracles, sub-process runner over the example binaries built from /repo (cargo build --examples --offline), one worker process per example"},
+            {"name": "harness", "path": "/verif/harness", "serves_properties": sorted(k for k in CHECKS.keys() if k != "C16"),
              "kind_free_text": "Rust crate: proptest strategies for model instances/configurations/op sequences/schedules, independent oracles, recording wrappers, cooperative scheduler over the hooks; sharded over 16 processes"},
         ],
         "checks": checks,
